@@ -1714,6 +1714,11 @@ impl HasQoSPolicy for Writer {
 // -------------------------------------------------------------------------------------
 // -------------------------------------------------------------------------------------
 
+// Verification accessors (read-only views of private state); only with `--cfg rustdds_verif`.
+#[cfg(rustdds_verif)]
+#[path = "/verif/facade/writer_hooks.rs"]
+pub(crate) mod verif_hooks;
+
 #[cfg(test)]
 mod tests {
   use std::thread;
